@@ -221,11 +221,11 @@ fn run_point_padding(cx: &mut CaseCx, case: &Value) {
   let secret = rm::le24(&BigUint::from(0x5ec2e7u64)).to_vec();
   let other_secret = rm::le24(&BigUint::from(0xabcdefu64)).to_vec();
   cx.entropy(7);
-  let own: Vec<Share> = match Sharks(t).dealer(&secret) {
+  let own: Vec<Share> = match sharks_dealer(t, &secret) {
     Ok(d) => d.take(tu - 1).collect(),
     Err(_) => return,
   };
-  let foreign: Vec<Share> = match Sharks(t).dealer(&other_secret) {
+  let foreign: Vec<Share> = match sharks_dealer(t, &other_secret) {
     Ok(d) => d.take(tu - 1).collect(),
     Err(_) => return,
   };
@@ -833,7 +833,7 @@ fn run_dealer_adapters(cx: &mut CaseCx, _case: &Value) {
   use star_sharks::{Share, Sharks};
   for t in [2u32, 3, 5] {
     let secret = crate::refmodel::le24(&num_bigint::BigUint::from(0x5ec2e7u64)).to_vec();
-    let mk = || Sharks(t).dealer(&secret).ok();
+    let mk = || sharks_dealer(t, &secret).ok();
     let shapes: Vec<(&str, Box<dyn Fn() -> Option<Vec<Share>>>)> = vec![
       ("nth(0) on a fresh dealer", Box::new(|| mk().map(|mut d| d.nth(0).into_iter().collect()))),
       ("nth(1) on a fresh dealer", Box::new(|| mk().map(|mut d| d.nth(1).into_iter().collect()))),
